@@ -1,11 +1,30 @@
+import StraxModel.Driver.C01
+import StraxModel.Driver.C02
+import StraxModel.Driver.C03
+import StraxModel.Driver.C04
+import StraxModel.Driver.C05
+import StraxModel.Driver.C06
 import StraxModel.Driver.C07
+import StraxModel.Driver.C08
+import StraxModel.Driver.C09
+import StraxModel.Driver.C10
+import StraxModel.Driver.C11
+import StraxModel.Driver.C12
+import StraxModel.Driver.C13
+import StraxModel.Driver.C14
+import StraxModel.Driver.C15
+import StraxModel.Driver.C16
+import StraxModel.Driver.C17
+import StraxModel.Driver.C18
+import StraxModel.Driver.C19
 /-
   Line-protocol driver: one op per input line, one canonical output line per op.
   Unknown or malformed ops answer `bad-op` (never a default value).
 -/
 open Strax.Driver
 
-def handlers : List (List String → Option String) := [handleC07]
+def handlers : List (List String → Option String) := [
+  handleC01, handleC02, handleC03, handleC04, handleC05, handleC06, handleC07, handleC08, handleC09, handleC10, handleC11, handleC12, handleC13, handleC14, handleC15, handleC16, handleC17, handleC18, handleC19]
 
 def step (line : String) : String :=
   let toks := (line.trimAscii.toString.splitOn " ").filter (· ≠ "")
